@@ -233,6 +233,18 @@ def c11(cx):
                 what="sync rounds against endpoints that refuse / reset / answer short / hang / sign wrongly / answer as rogue servers "
                      "(short, garbage list, unsigned entry, bad migration, random bytes, empty), all-banned and all-failed configurations; "
                      "lock probe and report-loop probe after every round; unattended re-sync count")
+    cx.mc("Sched", "MC_Sched.cfg", {"MaxDur": 7 if q else 12, "SDefects": "{}"}, workers=4,
+          note="scheduling rule of the report loop with rounds of 1..MaxDur iterations and any results: a failed round is retried "
+               "within 4 iterations, a round starts at least every 60, bounded overlap")
+    ok, _ = cx.mc("Sched", "MC_Sched.cfg", {"MaxDur": 7, "SDefects": '{"noretry"}'}, workers=2, expect_ok=False,
+                  note="non-vacuity: without the retry rule RetryWithin4 fails")
+    if ok:
+        raise __import__("core").Broken("Sched no longer refutes the deviation 'noretry'")
+    r = cx.drv_ok("rounds", ["--only", "sched"])
+    cx.validate("Trace_Round", "Trace_Round.cfg", r["trace"],
+                what="the report loop single-stepped for 170 iterations against ok / refusing / failing endpoints with a recent or stale "
+                     "last-sync file: every launch decision fits SchedRule for a status the rounds' progress allows, tick counter exact, "
+                     "rounds begin only when launched, results stored fit the rounds' outcome, every launch became a round")
     r = cx.drv_ok("syncparse")
     cx.validate("Trace_Sync", "Trace_Sync.cfg", r["trace"] + ".parse", what="parser on every single-bit flip / truncation / rogue-signed variant (no panic)")
 
